@@ -2,16 +2,19 @@
 
 use crate::core::{Ctx, Report};
 
+pub mod c01;
 pub mod c04;
 pub mod c05;
 pub mod c13;
 pub mod c28;
 pub mod c29;
+pub mod df;
 
 pub type CheckFn = fn(&Ctx) -> Report;
 
 pub fn registry() -> Vec<(&'static str, CheckFn)> {
     vec![
+        ("C01", c01::run as CheckFn),
         ("C04", c04::run as CheckFn),
         ("C05", c05::run as CheckFn),
         ("C13", c13::run as CheckFn),
@@ -30,6 +33,7 @@ pub fn replay(path: &str) -> i32 {
         return 2;
     };
     match doc["property"].as_str().unwrap_or("") {
+        "C01" => c01::replay(&doc),
         "C04" => c04::replay(&doc),
         "C13" => c13::replay(&doc),
         "C28" => c28::replay(&doc),
